@@ -214,7 +214,7 @@ class SetEncoder(encoder.SequenceEncoder):
                 except KeyError:
                     raise error.PyAsn1Error('Component name "%s" not found in %r' % (namedType.name, value))
 
-                if namedType.isDefaulted and component == namedType.asn1Object:
+                if namedType.isDefaulted and self._isDefaultValue(component, namedType):
                     continue
 
                 compsMap[id(component)] = namedType
